@@ -19,6 +19,9 @@ expected output.
                time-micros / timestamp-*: i64; uuid: String)
   GEN-OWNED    named sub-nodes pushed inline are keyed by nodes.len() read before the push; logical types annotate a
                build_duplicate copy (never the shared find_or_build node)
+  GEN-NAMES    the name constants of each expansion have the form the attributes give: `<namespace>.<name>`, no dot for an
+               empty namespace, `<module path>.<type>` without the attribute, sub-nodes `<fullname>.<variant or field>`
+               (expected strings computed from the attributes in /verif/corpus/src/lib.rs)
 Corpus conventions (internal to /verif/corpus): fields named `skipped*` and variants named `Hidden*` carry
 `#[avro_schema(skip)]`.
 """
